@@ -17,6 +17,7 @@ package l4wireguard
 import (
 	"bytes"
 	"encoding/binary"
+	"errors"
 	"io"
 	"strconv"
 
@@ -133,6 +134,10 @@ type MessageInitiation struct {
 }
 
 func (msg *MessageInitiation) FromBytes(src []byte) error {
+	// Any MessageInitiation has exactly 148 bytes.
+	if len(src) != MessageInitiationBytesTotal {
+		return ErrInvalidSourceLength
+	}
 	buf := bytes.NewBuffer(src)
 	if err := binary.Read(buf, MessageBytesOrder, &msg.Type); err != nil {
 		return err
@@ -232,6 +237,8 @@ var (
 )
 
 var (
+	ErrInvalidSourceLength = errors.New("invalid source length")
+
 	MessageBytesOrder = binary.LittleEndian
 )
 
